@@ -83,11 +83,14 @@ type FlowP struct {
 	EmitShared bool `json:"emit_shared,omitempty"`
 	// EmitSlice: the two emitters are passed as cff.EmitterStack(s...) where s
 	// is a slice (starting with cff.NopEmitter()) that the whole run shares.
-	EmitSlice bool  `json:"emit_slice,omitempty"`
-	OptSeed   int64 `json:"opt_seed"`            // shuffles the option order
-	WrapArgs  bool  `json:"wrap_args"`           // wrap directive arguments in rt.Arg probes
-	ErrIdent  bool  `json:"err_ident,omitempty"` // a directive argument mentions the user's variable err
-	Generic   bool  `json:"generic,omitempty"`   // the enclosing function is generic; TParam types are its type parameters
+	EmitSlice bool `json:"emit_slice,omitempty"`
+	// EmitNext: every emitter option reads cff.WithEmitter(h.NextEmitter()):
+	// textually identical arguments with different values.
+	EmitNext bool  `json:"emit_next,omitempty"`
+	OptSeed  int64 `json:"opt_seed"`            // shuffles the option order
+	WrapArgs bool  `json:"wrap_args"`           // wrap directive arguments in rt.Arg probes
+	ErrIdent bool  `json:"err_ident,omitempty"` // a directive argument mentions the user's variable err
+	Generic  bool  `json:"generic,omitempty"`   // the enclosing function is generic; TParam types are its type parameters
 	// MutArg: the first cff.Params value is a bare variable, and the next
 	// argument in source order is a call that overwrites that variable (with
 	// MutVal) as a side effect: the value read must still be the original.
@@ -135,6 +138,7 @@ type ParP struct {
 	InstrPar   bool    `json:"instr_par,omitempty"`
 	EmitShared bool    `json:"emit_shared,omitempty"`
 	EmitSlice  bool    `json:"emit_slice,omitempty"`
+	EmitNext   bool    `json:"emit_next,omitempty"`
 	OptSeed    int64   `json:"opt_seed"`
 	WrapArgs   bool    `json:"wrap_args"`
 	ErrIdent   bool    `json:"err_ident,omitempty"`
